@@ -1292,3 +1292,43 @@ def rule_reply_is_stdout(ctx):
         st = [s for s in b.calls() if callee_matches(callee_of(s), r"^std::process::ExitStatus::(success|code|signal)$|ExitStatusExt")]
         r.check(not st, anchor, "exit-status-decides", "the child's exit status is not inspected", "the child's exit status is inspected: solvers exiting with 10 / 20 (the SAT competition convention) would be treated as failed", st[0].loc() if st else b.loc())
     r.floor(n, 1, "functions waiting for an external solver")
+
+
+def rule_n_vars_covers_reservations(ctx):
+    """C15: what reserve() records, n_vars() reports"""
+    prog = ctx.prog
+    r = ctx.rule(
+        "reservations-are-counted",
+        "in every SatSolver impl, the integer field(s) `reserve` writes are read by `n_vars()` (or both delegate to the wrapped solver): a "
+        "reserved variable is a declared variable - the model has a value for it and `1 + n_vars()` never hands out its number as a fresh selector",
+    )
+    n = 0
+    for imp, nb in prog.impl_methods(SATSOLVER, "n_vars"):
+        owner = imp.get("self_adt")
+        adt = prog.adt(owner) if owner else None
+        rb = None
+        for imp2, b2 in prog.impl_methods(SATSOLVER, "reserve"):
+            if imp2.get("self_adt") == owner:
+                rb = b2
+        if adt is None or rb is None:
+            continue
+        n += 1
+        int_fields = {f["name"] for v in adt["variants"] for f in v["fields"] if f["ty"] in ("usize", "isize", "i32", "u32", "i64", "u64")}
+        written = set()
+        for y in prog.with_closures(rb):
+            for s in y.sites():
+                nd = s.node
+                if s.si is not None and nd["k"] == "assign" and nd["dst"]["p"]:
+                    fl = [str(x) for x in place_fields(nd["dst"])]
+                    if fl and fl[-1] in int_fields and (nd["dst"]["l"] == 1 or y.kind == "closure"):
+                        written.add(fl[-1])
+        read = {f for f in self_fields_read(nb, {"l": 0, "p": []}) if f in int_fields}
+        # delegation: reserve forwards to a wrapped solver's reserve, n_vars to its n_vars
+        res_deleg = any(callee_matches(callee_of(s), r"SatSolver::reserve$") for s in rb.calls())
+        nv_deleg = any(callee_matches(callee_of(s), r"SatSolver::n_vars$") for s in nb.calls())
+        anchor = "%s|reserve/n_vars" % owner
+        if not written:
+            r.check(res_deleg == nv_deleg or not res_deleg, anchor, "delegation-mismatch", "reserve writes no integer field (%s)" % ("delegates, as n_vars does" if res_deleg else "nothing to record"), "reserve delegates to the wrapped solver but n_vars does not", rb.loc())
+            continue
+        r.check(written <= read, anchor, "reserved-not-counted:%s" % sorted(written - read), "n_vars() reads what reserve() writes (%s)" % sorted(written), "`reserve` records the reservation in %s, which `n_vars()` does not read: reserved variables are not counted - the model does not cover them and `1 + n_vars()` can hand out a reserved variable's number as a fresh selector" % sorted(written - read), nb.loc())
+    r.floor(n, 2, "SatSolver impls with reserve and n_vars")
